@@ -1,9 +1,239 @@
-import WacModel.Targets
-import WacModel.Spec.Targets
-namespace Wac.Props.C11
-open Wac Wac.Spec
+import WacProofs.Lemmas.Targets
+import WacProofs.Lemmas.NameMapFacts
+/-
+  C11 — a `targets` verdict means the output really conforms to the world.
 
-/-- placeholder while the pipeline is brought up -/
-theorem conforms_empty : conforms { imports := [], exports := [] } { imports := [], exports := [] } = true := by decide
+  Models (WacModel/Targets.lean): `resolveValidateTarget` = `AstResolver::validate_target` on the
+  graph's imports/exports (exact names, first failure wins), `binaryValidateLists` /
+  `binaryValidateTarget` = `wac_types::validate_target` (semver-aware `NameMap` lookups, report),
+  `implicitImported` = `World::implicit_imported_interfaces`.  The subtype facts are `SubK`
+  (`subNames` on the unfolded trees; for resource-free kinds the component-model relation `sub`,
+  C07 `subNames_eq_sub`).  Well-formedness hypotheses (`WFK`): every kind involved unfolds to a
+  tree with distinct names.  The link graph ↦ encoded output is C03/C08's, not part of these
+  statements: both validators are stated over one collection and the same import/export lists.
+-/
+namespace Wac.Props.C11
+open Wac Wac.Spec Wac.Props.C07
+
+/-- the world's import a name refers to at resolution time: used interfaces first, then declared imports -/
+def lookR (implicit explicit : List (Str × ItemKind)) (n : Str) : Option ItemKind :=
+  (amGet implicit n).orElse (fun _ => amGet explicit n)
+
+/-- **conformance, exact names**: every import of the output is an import of the world
+(explicit or through a used interface) whose type satisfies it, and every export of the world
+is exported at a conforming type -/
+def ConformsExact (t : Types) (implicit explicit gi ge wexports : List (Str × ItemKind)) : Prop :=
+  (∀ n k, (n, k) ∈ gi → ∃ e, lookR implicit explicit n = some e ∧ SubK t e.promote k) ∧
+  (∀ n e, (n, e) ∈ wexports → ∃ k, amGet ge n = some k ∧ SubK t k e.promote)
+
+/-- **conformance, semver-aware names** (what the stand-alone check decides) -/
+def ConformsSemver (t : Types) (wi ce : NameMap ItemKind) (ci wexports : List (Str × ItemKind)) : Prop :=
+  (∀ n k, (n, k) ∈ ci → ∃ e, wi.get n = some e ∧ SubK t e.promote k) ∧
+  (∀ n e, (n, e) ∈ wexports → ∃ k, ce.get n = some k ∧ SubK t k e.promote)
+
+/-- well-formedness of the inputs of the resolution-time check -/
+def WFResolve (t : Types) (implicit explicit gi ge wexports : List (Str × ItemKind)) : Prop :=
+  (∀ n k, (n, k) ∈ gi → WFK t k ∧ ∀ e, lookR implicit explicit n = some e → WFK t e.promote) ∧
+  (∀ n e, (n, e) ∈ wexports → WFK t e.promote ∧ ∀ k, amGet ge n = some k → WFK t k)
+
+theorem memoSound_start (t : Types) : MemoSound (oneColl t) ((({} : Checker).invert).2).cache := by
+  intro _ _ _ _ _ _ h; simp [Checker.invert] at h
+
+/-- **`resolve_target_sound` and completeness**: the resolution-time check succeeds exactly when
+the composition conforms (exact names). -/
+theorem resolve_target_iff_conforms (t : Types) (world : Nat) (w : World) (implicit gi ge : List (Str × ItemKind))
+    (hw : t.worlds[world]? = some w) (hi : implicitImported t w = some implicit)
+    (hwf : WFResolve t implicit w.imports gi ge w.exports) :
+    resolveValidateTarget t world gi ge = .ok ↔ ConformsExact t implicit w.imports gi ge w.exports := by
+  simp only [resolveValidateTarget, hw, hi]
+  have hI := resolveImports_spec t implicit w.imports gi (({} : Checker).invert).2 (memoSound_start t) hwf.1
+  cases hr : resolveImports t implicit w.imports (({} : Checker).invert).2 gi with
+  | mk v c1 =>
+    rw [hr] at hI
+    cases v with
+    | ok =>
+      have hk : c1.kinds = (({} : Checker).invert).2.kinds := hI.2.2 rfl
+      have hrev : c1.revert = some { c1 with kinds := [] } := by
+        simp [Checker.revert, hk, Checker.invert, Checker.kind, Variance.flip]
+      simp only [hrev]
+      have hE := resolveExports_spec t ge w.exports { c1 with kinds := [] } hI.2.1 hwf.2
+      rw [hE.1]
+      exact ⟨fun h => ⟨hI.1.1 rfl, h⟩, fun h => h.2⟩
+    | importNotInTarget n =>
+      simp only
+      exact ⟨fun h => (by cases h), fun h => by have := hI.1.2 h.1; cases this⟩
+    | targetMismatch i n m =>
+      simp only
+      exact ⟨fun h => (by cases h), fun h => by have := hI.1.2 h.1; cases this⟩
+    | missingTargetExport n k =>
+      simp only
+      exact ⟨fun h => (by cases h), fun h => by have := hI.1.2 h.1; cases this⟩
+    | panic s =>
+      simp only
+      exact ⟨fun h => (by cases h), fun h => by have := hI.1.2 h.1; cases this⟩
+
+theorem resolve_target_sound (t : Types) (world : Nat) (w : World) (implicit gi ge : List (Str × ItemKind))
+    (hw : t.worlds[world]? = some w) (hi : implicitImported t w = some implicit)
+    (hwf : WFResolve t implicit w.imports gi ge w.exports)
+    (hok : resolveValidateTarget t world gi ge = .ok) :
+    ConformsExact t implicit w.imports gi ge w.exports :=
+  (resolve_target_iff_conforms t world w implicit gi ge hw hi hwf).1 hok
+
+/-- **`diagnostic_classification`**: each failure variant names a real non-conformance of its kind
+— an import outside the world, a missing export, or a type mismatch of that import / export —
+and the check never panics on well-formed input. -/
+theorem diagnostic_classification (t : Types) (world : Nat) (w : World) (implicit gi ge : List (Str × ItemKind))
+    (hw : t.worlds[world]? = some w) (hi : implicitImported t w = some implicit)
+    (hwf : WFResolve t implicit w.imports gi ge w.exports) :
+    (∀ n, resolveValidateTarget t world gi ge = .importNotInTarget n →
+      ∃ k, (n, k) ∈ gi ∧ lookR implicit w.imports n = none) ∧
+    (∀ n kd, resolveValidateTarget t world gi ge = .missingTargetExport n kd →
+      ∃ e, (n, e) ∈ w.exports ∧ amGet ge n = none) ∧
+    (∀ n m, resolveValidateTarget t world gi ge = .targetMismatch true n m →
+      ∃ k e, (n, k) ∈ gi ∧ lookR implicit w.imports n = some e ∧ ¬ SubK t e.promote k) ∧
+    (∀ n m, resolveValidateTarget t world gi ge = .targetMismatch false n m →
+      ∃ e k, (n, e) ∈ w.exports ∧ amGet ge n = some k ∧ ¬ SubK t k e.promote) ∧
+    (∀ s, resolveValidateTarget t world gi ge ≠ .panic s) := by
+  simp only [resolveValidateTarget, hw, hi]
+  have hI := resolveImports_spec t implicit w.imports gi (({} : Checker).invert).2 (memoSound_start t) hwf.1
+  have hD := resolveImports_diag t implicit w.imports gi (({} : Checker).invert).2 (memoSound_start t) hwf.1
+  cases hr : resolveImports t implicit w.imports (({} : Checker).invert).2 gi with
+  | mk v c1 =>
+    rw [hr] at hI hD
+    cases v with
+    | ok =>
+      have hk : c1.kinds = (({} : Checker).invert).2.kinds := hI.2.2 rfl
+      have hrev : c1.revert = some { c1 with kinds := [] } := by
+        simp [Checker.revert, hk, Checker.invert, Checker.kind, Variance.flip]
+      simp only [hrev]
+      have hE := resolveExports_diag t ge w.exports { c1 with kinds := [] } hI.2.1 hwf.2
+      refine ⟨fun n h => absurd h (hE.2.2.1 n), hE.1, fun n m h => ?_, fun n m h => ?_, hE.2.2.2⟩
+      · have := (hE.2.1 true n m h).1; cases this
+      · obtain ⟨_, e, k, he, hk', hns⟩ := hE.2.1 false n m h
+        exact ⟨e, k, he, hk', hns⟩
+    | importNotInTarget n =>
+      simp only
+      refine ⟨fun n' h => ?_, fun n' kd h => (by cases h), fun n' m h => (by cases h), fun n' m h => (by cases h), fun s h => (by cases h)⟩
+      cases h; exact hD.1 n rfl
+    | targetMismatch i n m =>
+      simp only
+      obtain ⟨hi', k, e, hk, he, hns⟩ := hD.2.1 i n m rfl
+      subst hi'
+      refine ⟨fun n' h => (by cases h), fun n' kd h => (by cases h), fun n' m' h => ?_, fun n' m' h => (by cases h), fun s h => (by cases h)⟩
+      cases h; exact ⟨k, e, hk, he, hns⟩
+    | missingTargetExport n k => exact absurd rfl (hD.2.2.1 n k)
+    | panic s => exact absurd rfl (hD.2.2.2 s)
+
+/-- **`binary_target_iff_conforms`**: whenever the stand-alone check returns a report, the report
+is empty exactly when the component conforms under semver-aware name lookup. -/
+theorem binary_target_iff_conforms (t : Types) (w : World) (implicit ci ce : List (Str × ItemKind)) (rep : Report)
+    (hi : implicitImported t w = some implicit)
+    (hwfi : ∀ n k, (n, k) ∈ ci → WFK t k ∧ ∀ e, (allImports implicit w.imports).get n = some e → WFK t e.promote)
+    (hwfe : ∀ n e, (n, e) ∈ w.exports → WFK t e.promote ∧ ∀ k, (nameMapOf ce).get n = some k → WFK t k)
+    (hrep : binaryValidateLists t w ci ce = some rep) :
+    rep.isOk = true ↔ ConformsSemver t (allImports implicit w.imports) (nameMapOf ce) ci w.exports := by
+  simp only [binaryValidateLists, hi] at hrep
+  cases h1 : binaryImports t (allImports implicit w.imports) (({} : Checker).invert).2 {} ci with
+  | none => simp [h1] at hrep
+  | some p =>
+    obtain ⟨r1, c1⟩ := p
+    simp only [h1] at hrep
+    have hI := binaryImports_spec t _ ci _ {} (memoSound_start t) hwfi r1 c1 h1
+    cases hrev : c1.revert with
+    | none => simp [hrev] at hrep
+    | some c2 =>
+      simp only [hrev] at hrep
+      cases h2 : binaryExports t (nameMapOf ce) c2 r1 w.exports with
+      | none => simp [h2] at hrep
+      | some q =>
+        obtain ⟨r2, c3⟩ := q
+        simp only [h2, Option.map_some, Option.some.injEq] at hrep
+        subst hrep
+        have hc2 : MemoSound (oneColl t) c2.cache := by
+          simp only [Checker.revert] at hrev
+          split at hrev
+          · cases hrev
+          · cases hrev; exact hI.1
+        have hE := binaryExports_spec t _ w.exports c2 r1 hc2 hwfe r2 c3 h2
+        rw [hE.2, hI.2]
+        simp only [ConformsSemver]
+        constructor
+        · rintro ⟨⟨_, h1'⟩, h2'⟩; exact ⟨h1', h2'⟩
+        · rintro ⟨h1', h2'⟩; exact ⟨⟨rfl, h1'⟩, h2'⟩
+
+/-- **`resolve_ok_implies_binary_ok`** (DESIGN §10 row 15, decided): if the resolution-time check
+accepts, the stand-alone check on the same world and the same import/export lists reports
+nothing — provided the semver-aware maps return the exact-name entry whenever there is one
+(`NameMap::get` looks the exact name up first; the hypotheses say that the last entry inserted
+under a name is the one the exact lookup of the resolver sees, i.e. names are not declared twice
+with different kinds). -/
+theorem resolve_ok_implies_binary_ok (t : Types) (world : Nat) (w : World) (implicit gi ge : List (Str × ItemKind))
+    (rep : Report)
+    (hw : t.worlds[world]? = some w) (hi : implicitImported t w = some implicit)
+    (hwf : WFResolve t implicit w.imports gi ge w.exports)
+    (hexactI : ∀ n e, lookR implicit w.imports n = some e → (allImports implicit w.imports).get n = some e)
+    (hexactE : ∀ n k, amGet ge n = some k → (nameMapOf ge).get n = some k)
+    (hwfi : ∀ n k, (n, k) ∈ gi → WFK t k ∧ ∀ e, (allImports implicit w.imports).get n = some e → WFK t e.promote)
+    (hwfe : ∀ n e, (n, e) ∈ w.exports → WFK t e.promote ∧ ∀ k, (nameMapOf ge).get n = some k → WFK t k)
+    (hok : resolveValidateTarget t world gi ge = .ok)
+    (hrep : binaryValidateLists t w gi ge = some rep) :
+    rep.isOk = true := by
+  have hc := resolve_target_sound t world w implicit gi ge hw hi hwf hok
+  rw [binary_target_iff_conforms t w implicit gi ge rep hi hwfi hwfe hrep]
+  refine ⟨fun n k hmem => ?_, fun n e hmem => ?_⟩
+  · obtain ⟨e, he, hs⟩ := hc.1 n k hmem
+    exact ⟨e, hexactI n e he, hs⟩
+  · obtain ⟨k, hk, hs⟩ := hc.2 n e hmem
+    exact ⟨k, hexactE n k hk, hs⟩
+
+/-- the same with the `NameMap` facts discharged: it suffices that names are unique inside the
+implicit imports, the declared imports and the output's exports (true of every `IndexMap`), and
+that a name which is both a used interface and a declared import has one kind. -/
+theorem resolve_ok_implies_binary_ok_maps (t : Types) (world : Nat) (w : World) (implicit gi ge : List (Str × ItemKind))
+    (rep : Report)
+    (hw : t.worlds[world]? = some w) (hi : implicitImported t w = some implicit)
+    (hwf : WFResolve t implicit w.imports gi ge w.exports)
+    (hdi : keysDistinct implicit = true) (hde : keysDistinct w.imports = true) (hdg : keysDistinct ge = true)
+    (hagree : ∀ n a b, amGet implicit n = some a → amGet w.imports n = some b → a = b)
+    (hwfi : ∀ n k, (n, k) ∈ gi → WFK t k ∧ ∀ e, (allImports implicit w.imports).get n = some e → WFK t e.promote)
+    (hwfe : ∀ n e, (n, e) ∈ w.exports → WFK t e.promote ∧ ∀ k, (nameMapOf ge).get n = some k → WFK t k)
+    (hok : resolveValidateTarget t world gi ge = .ok)
+    (hrep : binaryValidateLists t w gi ge = some rep) :
+    rep.isOk = true :=
+  resolve_ok_implies_binary_ok t world w implicit gi ge rep hw hi hwf
+    (fun n e h => allImports_get_exact implicit w.imports hdi hde hagree n e h)
+    (fun n k h => nameMapOf_get_exact ge hdg n k h) hwfi hwfe hok hrep
+
+/-! ### concrete witnesses -/
+
+/-- world `w { import a: func(); import p:q/i@0.2.1: instance{f,g}; export run: func() }`,
+composition importing `a` and `p:q/i@0.2.0: instance{f}` and exporting `run` and `extra` -/
+def exT : Types :=
+  { uid := 1, funcs := [{}],
+    interfaces := [{ exports := [(['f'], .func 0), (['g'], .func 0)] }, { exports := [(['f'], .func 0)] }],
+    worlds := [{ imports := [(['a'], .func 0), ("p:q/i@0.2.1".toList, .instance 0)], exports := [("run".toList, .func 0)] }] }
+
+/-- a conforming composition is accepted by both checks … -/
+example : resolveValidateTarget exT 0 [(['a'], .func 0), ("p:q/i@0.2.1".toList, .instance 1)]
+      [("run".toList, .func 0), ("extra".toList, .func 0)] = .ok ∧
+    (binaryValidateLists exT (exT.worlds[0]?.getD {}) [(['a'], .func 0), ("p:q/i@0.2.1".toList, .instance 1)]
+      [("run".toList, .func 0), ("extra".toList, .func 0)]).map Report.isOk = some true := by
+  constructor <;> decide +kernel
+
+/-- … a semver-compatible import name is accepted only by the stand-alone check (row 15: the
+resolution-time check is the stricter one, so no successful resolution is rejected later) -/
+example : resolveValidateTarget exT 0 [("p:q/i@0.2.0".toList, .instance 1)] [("run".toList, .func 0)]
+      = .importNotInTarget "p:q/i@0.2.0".toList ∧
+    (binaryValidateLists exT (exT.worlds[0]?.getD {}) [("p:q/i@0.2.0".toList, .instance 1)]
+      [("run".toList, .func 0)]).map Report.isOk = some true := by
+  constructor <;> decide +kernel
+
+/-- the three diagnostics -/
+example : resolveValidateTarget exT 0 [(['b'], .func 0)] [("run".toList, .func 0)] = .importNotInTarget ['b'] ∧
+    resolveValidateTarget exT 0 [] [] = .missingTargetExport "run".toList "function" ∧
+    (match resolveValidateTarget exT 0 [("p:q/i@0.2.1".toList, .instance 1)] [("run".toList, .instance 1)] with
+     | .targetMismatch false n _ => n == "run".toList
+     | _ => false) = true := by
+  refine ⟨?_, ?_, ?_⟩ <;> decide +kernel
 
 end Wac.Props.C11
